@@ -89,6 +89,14 @@ func contexts() []wrap {
 		{"after-unescaped-sibling", func(n *gen.Node) []*gen.Node {
 			return []*gen.Node{{Kind: gen.KScript, Expr: `"<i>"`, Unescaped: true}, n, p("after")}
 		}},
+		{"after-inline-unescaped-element", func(n *gen.Node) []*gen.Node {
+			return []*gen.Node{{Kind: gen.KElem, Tag: "p", Inline: &gen.Node{Kind: gen.KScript, Expr: `"<i>"`, Unescaped: true}}, n, p("after")}
+		}},
+		{"after-inline-unescaped-text-element", func(n *gen.Node) []*gen.Node {
+			u := txt(st("raw "), dyn("s1"))
+			u.Unescaped = true
+			return []*gen.Node{{Kind: gen.KElem, Tag: "p", Inline: u}, n, p("after")}
+		}},
 		{"in-nuked-element", func(n *gen.Node) []*gen.Node {
 			return []*gen.Node{{Kind: gen.KElem, Tag: "div", NukeInner: true, NukeOuter: true, Kids: []*gen.Node{n}}, p("after")}
 		}},
@@ -121,7 +129,7 @@ var c02Strings = []string{"neutral", `<b>`, `a"b`, `it's`, `&amp;`, `</p><script
 
 func c02(c *Ctx) {
 	c.Rep.TieObs = []string{"O-render", "O-rt (helpers, see C19)"}
-	c.Rep.Rule = "every kind of dynamic site (20) x every enclosing context (7) as its own template, rendered for every string of the adversarial alphabet (HTML metacharacters, both quotes, backslashes, controls, multi-byte and astral runes, marker look-alikes; thorough adds all 2-symbol strings); oracle: (1) generator intent: escaped sites carry html-escaped v, unescaped sites exactly v; (2) for escaped sites the token structure equals the placeholder's and v appears entity-decoded where the placeholder was; distinct = distinct (site, context, value)"
+	c.Rep.Rule = "every kind of dynamic site (20) x every enclosing context (9) as its own template, rendered for every string of the adversarial alphabet (HTML metacharacters, both quotes, backslashes, controls, multi-byte and astral runes, marker look-alikes; thorough adds all 2-symbol strings); oracle: (1) generator intent: escaped sites carry html-escaped v, unescaped sites exactly v; (2) for escaped sites the token structure equals the placeholder's and v appears entity-decoded where the placeholder was; distinct = distinct (site, context, value)"
 	f, names := siteFile()
 	prepFile(f)
 	p, src := f.Print()
@@ -310,6 +318,23 @@ func staticSites() []staticSite {
 		}},
 		{"attr-name-quoted", true, noneOf("\"`\n\r\\ \t<>='/&"), func(s string) *gen.Node {
 			return el(&gen.Node{Tag: "p", Attrs: []gen.Attr{{Name: s, QuoteCh: '"', Kind: gen.AStatic, Value: "v", ValQuote: '"'}}, Inline: txt(st("x"))})
+		}},
+		// names of boolean and conditional attributes go through their own splice sites; backslashes and (between
+		// backticks) double quotes are legal there
+		{"attr-name-bare-bool", true, noneOf("?:,}{\" \t\n\r@`'&<>=/"), func(s string) *gen.Node {
+			return el(&gen.Node{Tag: "p", Attrs: []gen.Attr{{Name: s, Kind: gen.ABool}}, Inline: txt(st("x"))})
+		}},
+		{"attr-name-bare-cond", true, noneOf("?:,}{\" \t\n\r@`'&<>=/"), func(s string) *gen.Node {
+			return el(&gen.Node{Tag: "p", Attrs: []gen.Attr{{Name: s, Kind: gen.ACond, Expr: "b0"}}, Inline: txt(st("x"))})
+		}},
+		{"attr-name-quoted-cond", true, func(s string) bool { return noneOf("\"`\n\r \t<>='/&")(s) && !strings.HasSuffix(s, `\`) }, func(s string) *gen.Node {
+			return el(&gen.Node{Tag: "p", Attrs: []gen.Attr{{Name: s, QuoteCh: '"', Kind: gen.ACond, Expr: "b0"}}, Inline: txt(st("x"))})
+		}},
+		{"attr-name-backtick-cond", true, noneOf("`\n\r \t<>='/&"), func(s string) *gen.Node {
+			return el(&gen.Node{Tag: "p", Attrs: []gen.Attr{{Name: s, QuoteCh: '`', Kind: gen.ACond, Expr: "b0"}}, Inline: txt(st("x"))})
+		}},
+		{"attr-name-backtick", true, noneOf("`\n\r \t<>='/&"), func(s string) *gen.Node {
+			return el(&gen.Node{Tag: "p", Attrs: []gen.Attr{{Name: s, QuoteCh: '`', Kind: gen.AStatic, Value: "v", ValQuote: '"'}}, Inline: txt(st("x"))})
 		}},
 		{"attr-value-dq", true, func(s string) bool { return s != "" && !strings.ContainsAny(s, "\n\r") }, func(s string) *gen.Node {
 			return el(&gen.Node{Tag: "p", Attrs: []gen.Attr{{Name: "t", Kind: gen.AStatic, Value: s, ValQuote: '"'}}, Inline: txt(st("x"))})
